@@ -138,6 +138,11 @@ pub struct Case {
     /// one picture), whatever their `build` says
     #[serde(default)]
     pub shared_backing: bool,
+    /// (with `shared_backing`) history on the image objects: the backing picture itself is drawn
+    /// first, and only then are the windows cropped out of it -- nothing remembered for the
+    /// picture (identity, transmission state) may be inherited by a window with other content
+    #[serde(default)]
+    pub late_windows: bool,
 }
 
 // ---------------------------------------------------------------------------------------
@@ -1173,6 +1178,19 @@ pub fn check_case(case: &Case) -> Outcome {
         };
         key_of_content.push(key);
     }
+    let mut handler = if case.quiet {
+        KittyImageHandler::new().quiet()
+    } else {
+        KittyImageHandler::new()
+    };
+    let mut run = Run {
+        table,
+        m: Model::default(),
+        labels: BTreeSet::new(),
+        deferred: None,
+        nontrivial: false,
+        evno: 0,
+    };
     // ---- images
     let mut images = Vec::new();
     let mut img_key = Vec::new();
@@ -1212,6 +1230,18 @@ pub fn check_case(case: &Case) -> Outcome {
                     },
                 ))
             })?;
+            if case.late_windows {
+                // the whole picture is a content of its own, drawn before any window exists
+                let bytes: Vec<u8> = backing.iter().flat_map(|p| p.to_rgba()).collect();
+                run.table.push((rows + 1, width, bytes));
+                let key = run.table.len() - 1;
+                let pos = case.poss[0];
+                let mut out: Vec<u8> = Vec::new();
+                guard_val(|| handler.draw(&mut out, &backing, Position { row: pos.0, col: pos.1 }))?
+                    .map_err(|e| Fail::new("draw/error", format!("drawing the backing picture returned {e:?}")))?;
+                run.exec(&out, Ctx::Draw { key, pos })?;
+                run.label("img:windows-cropped-after-the-picture-was-drawn");
+            }
             for (i, r0, left, c) in &regions {
                 shared[*i] = Some(guard_val(|| backing.crop(*r0..r0 + c.h, *left..left + c.w))?);
             }
@@ -1229,7 +1259,7 @@ pub fn check_case(case: &Case) -> Outcome {
         let seen: Vec<u8> = img.iter().flat_map(|p| p.to_rgba()).collect();
         let dims_ok = c.is_empty() || (img.height() == c.h && img.width() == c.w);
         ensure!(
-            dims_ok && seen == table[key_of_content[ci]].2,
+            dims_ok && seen == run.table[key_of_content[ci]].2,
             "precondition/image-view-mismatch",
             "image built as {:?} from a {}x{} content iterates {} bytes with size {:?}",
             spec.build,
@@ -1242,19 +1272,6 @@ pub fn check_case(case: &Case) -> Outcome {
         img_key.push(key_of_content[ci]);
     }
 
-    let mut handler = if case.quiet {
-        KittyImageHandler::new().quiet()
-    } else {
-        KittyImageHandler::new()
-    };
-    let mut run = Run {
-        table,
-        m: Model::default(),
-        labels: BTreeSet::new(),
-        deferred: None,
-        nontrivial: false,
-        evno: 0,
-    };
     run.label(if case.quiet { "handler:quiet" } else { "handler:plain" });
     if windows {
         run.label("img:windows-into-one-backing-image");
@@ -1637,9 +1654,10 @@ impl Property for C11 {
                     proptest::collection::vec(ev_strategy(n_img, n_pos), 1..=15),
                     0u8..48,
                     proptest::bool::weighted(0.3),
+                    any::<bool>(),
                 )
             })
-            .prop_map(|(quiet, mut contents, imgs, poss, evs, tweak, shared_backing)| {
+            .prop_map(|(quiet, mut contents, imgs, poss, evs, tweak, shared_backing, late_windows)| {
                 // contents that random pixels cannot reach (found once by an offline search
                 // over the 64-bit FNV content hash reduced mod 2^32-1)
                 let last = contents.len() - 1;
@@ -1670,6 +1688,7 @@ impl Property for C11 {
                     imgs,
                     poss,
                     evs,
+                    late_windows: shared_backing && late_windows,
                     shared_backing,
                 }
             })
@@ -1701,7 +1720,7 @@ impl Property for C11 {
     }
 
     fn rule(&self) -> String {
-        "generated: 1-3 image contents (sizes 0x0..48x48 incl. empty, 1x1 and sizes whose base64 payload is 4096k-4, 4096k, 4096k+4 bytes for k=1,2,3; solid / explicit / 00-FF / byte-ramp / noise pixels; rarely also a 1x1 content that hashes to image id 0 / a pair of 1x1 contents with equal image id / the same bytes in another shape) realised as 1-4 Images (owned, Image::new, crop, view, strided + column-major from_parts, transposed; several Images may share a content with different Arcs; in 30% of the cases all non-empty images are windows cropped out of one backing Image object), 1-3 positions below 65536 biased to (0,0), row 0, column 0 and 65535, and a history of 1-15 events Draw / Erase(at|all) / response(OK|error, for a drawn image with a placement id the handler used, or arbitrary numbers) on one KittyImageHandler (plain or quiet). \
+        "generated: 1-3 image contents (sizes 0x0..48x48 incl. empty, 1x1 and sizes whose base64 payload is 4096k-4, 4096k, 4096k+4 bytes for k=1,2,3; solid / explicit / 00-FF / byte-ramp / noise pixels; rarely also a 1x1 content that hashes to image id 0 / a pair of 1x1 contents with equal image id / the same bytes in another shape) realised as 1-4 Images (owned, Image::new, crop, view, strided + column-major from_parts, transposed; several Images may share a content with different Arcs; in 30% of the cases all non-empty images are windows cropped out of one backing Image object, in half of those only after that picture has itself been drawn on the handler), 1-3 positions below 65536 biased to (0,0), row 0, column 0 and 65535, and a history of 1-15 events Draw / Erase(at|all) / response(OK|error, for a drawn image with a placement id the handler used, or arbitrary numbers) on one KittyImageHandler (plain or quiet). \
          Every output is scanned (APC, ESC 7/8, CUP), every graphics command is parsed and executed on a kitty reference model; checked: key syntax, id range, chunk length <=4096 and multiple of 4, m flags, continuation chunks carry only m/q, RFC 4648 decode = w*h*4 bytes = row-major RGBA, s/v = image size, f=32, content transmitted at most once unless an error response invalidated its id, every a=p names an id whose data the terminal holds and whose data is the drawn image, draw of a non-empty image creates a placement, placements re-created in answer to an error response carry the placement id the response named and sit at the cell of the original draw, erase-at deletes exactly the placements made by drawing that content at that cell (p=0/absent = all placements of the image). \
          non-trivial = a draw served from the transmit cache, or an erase-at with sibling placements of the same image, or an error response for an id the handler used".into()
     }
